@@ -115,6 +115,8 @@ def check_spec(h: Harness, site: str, spec: Spec, b: Built, usable: bool = True,
     if exact:   # (the enumeration oracle recurses once per depth level: not for the 150-level chains)
         check_exactness(h, site, spec, b, g)
     check_recursion_exact(h, site, spec, b, g)
+    if us is not None:
+        check_usable_exact(h, site, spec, b, g, us)
     h.count(f"classes={len(spec.classes)}")
     h.count("productive" if g.get_min_tree_depth() < 1000000 else "unproductive")
     if spec.expansion:
@@ -132,6 +134,35 @@ def mentioned_classes(t, out):
             for x in t[1:]:
                 mentioned_classes(x, out)
     return out
+
+
+def check_usable_exact(h: Harness, site: str, spec: Spec, b: Built, g, us):
+    """the usable sub-grammar holds exactly what the start symbol reaches: every reachable class is in it, and every PRODUCTION in it
+    (a concrete class) is reachable -- by an independent walk over the derivation graph of the full grammar"""
+    registered = {b.index[c] for c in g.all_nodes if c in b.index}
+    alts = {b.index[p]: [b.index[c] for c in cs] for p, cs in g.alternatives.items()}
+    reach, todo = set(), [spec.start]
+    while todo:
+        x = todo.pop()
+        if x in reach or x not in registered:
+            continue
+        reach.add(x)
+        if x in alts:
+            todo += alts[x]
+        else:
+            out = set()
+            for _, ft in spec.classes[x].fields:
+                mentioned_classes(ft, out)
+            todo += list(out)
+    have = set(us)
+    missing = sorted(reach - have)
+    extra = sorted(i for i in have - reach if not spec.classes[i].abstract)
+    h.seen(f"usable-exact:{gram.spec_sx_str(spec)}", nontrivial=len(registered - reach) > 0)
+    if missing or extra:
+        h.fail("Grammar.usable_grammar", "usable-grammar-not-the-reachable-part",
+               f"usable_grammar() of {sx(gram.spec_sx(spec))[:200]}: " + (f"reachable classes {[spec.classes[i].name for i in missing]} are missing; " if missing else "")
+               + (f"productions {[spec.classes[i].name for i in extra]} are not reachable from the start symbol {spec.classes[spec.start].name}" if extra else ""),
+               [gram.spec_sx_str(spec)])
 
 
 def check_recursion_exact(h: Harness, site: str, spec: Spec, b: Built, g):
@@ -302,6 +333,20 @@ CORPUS.append(Spec([gram.ClassSpec("A0", True, None), gram.ClassSpec("Lit", Fals
 CORPUS.append(Spec([gram.ClassSpec("A0", True, None), gram.ClassSpec("Lit", False, 0, []), gram.ClassSpec("Swap", False, 0, [("p", ("cls", 3))]),
                     gram.ClassSpec("Pair", False, None, [("l", ("cls", 0)), ("t", ("tuple", ("cls", 4), "bool"))]),
                     gram.ClassSpec("Tag", False, None, [("n", ("ann", "int", ("intRange", 0, 2)))])], 0, [1, 2], expansion=True))
+
+# symbols reachable only "from below": a field typed with ONE concrete production of a second hierarchy whose other productions are
+# unreachable, and a start symbol that itself has an abstract parent with further productions -- the usable sub-grammar keeps what is
+# reachable from the start symbol, not the siblings that share an ancestor with it
+CORPUS.append(Spec([gram.ClassSpec("A0", True, None), gram.ClassSpec("Lit", False, 0, []), gram.ClassSpec("Draw", False, 0, [("s", ("cls", 4))]),
+                    gram.ClassSpec("Shape", True, None), gram.ClassSpec("Square", False, 3, [("k", "int")]),
+                    gram.ClassSpec("Circle", False, 3, [("r", ("cls", 6))]), gram.ClassSpec("Round", False, None, [("b", "bool")])], 0, [1, 2, 4, 5, 6]))
+CORPUS.append(Spec([gram.ClassSpec("Node", True, None), gram.ClassSpec("Stmt", True, 0), gram.ClassSpec("Skip", False, 1, []),
+                    gram.ClassSpec("Seq", False, 1, [("a", ("cls", 1)), ("b", ("cls", 1))]), gram.ClassSpec("Expr", True, 0),
+                    gram.ClassSpec("Num", False, 4, [("v", "int")]), gram.ClassSpec("Weird", False, 0, [("e", ("cls", 4))])], 1, [2, 3, 5, 6, 4]))
+CORPUS.append(Spec([gram.ClassSpec("A0", True, None), gram.ClassSpec("Lit", False, 0, []),
+                    gram.ClassSpec("Use", False, 0, [("xs", ("ann", ("list", ("cls", 4)), ("listSize", 1, 2)))]),
+                    gram.ClassSpec("Fam", True, None), gram.ClassSpec("Sub", True, 3), gram.ClassSpec("S1", False, 4, []), gram.ClassSpec("Other", False, 3, [("u", ("cls", 0))])],
+                   0, [1, 2, 5, 6, 4]))
 
 
 def big_chains():
